@@ -6,9 +6,11 @@ stated against SkVerif/Spec/Orch.lean.  Only theorems + non-vacuity examples her
 Reading guide: `items` is ANY work list (what `_iter` yields), `cfg` ANY store naming scheme (`cfg.disk = true`:
 a store with existence checks such as `HDDResults`), `L` ANY deterministic estimator, `o` ANY option combination,
 `fail` ANY failure point (the k-th fit-or-predict call raises; `none` = no failure), histories are ANY lists of
-runs.  `KeyInj cfg items`: distinct (strategy, dataset, fold, part) have distinct keys (proved for the HDD scheme
-from distinct names in `mkWork_keys_injective`; FALSE for the RAM scheme with underscores in names, see
-`ram_key_collision_witness`).
+runs.  `KeyInj cfg items`: distinct (strategy, dataset, fold, part) have distinct keys; proved for BOTH the HDD and
+the RAM naming scheme from distinct names in `mkWork_keys_injective`, so every theorem below applies to the real
+work list over either store.  The model is the code AFTER the fixes 027a939 (a skipped iteration re-registers its
+names) and 23c2285 (RAM keys are tuples); what failed before them is kept in `corpus/C19/witnesses.json` and in
+`original_ram_key_collision` below.
 -/
 import SkVerif.Lemmas.OrchApi
 import SkVerif.Lemmas.OrchWork
@@ -56,9 +58,7 @@ theorem exactly_one_record_per_key (cfg : Cfg N K) (L : Learner W) (o : Opts) (i
 reused results objects) starting from an empty store, a record stored under the key of (item, part) has
 exactly the instance index, the true values and the predictions of fitting a fresh clone on the item's
 training instances and predicting the part's instances, and carries the item's names; a saved fitted strategy
-holds exactly that fit.  (`KeyInj` holds for `HDDResults` with distinct names, `mkWork_keys_injective`; for
-`RAMResults` it excludes names whose joined keys collide, where the statement is false:
-`ram_collision_breaks_honesty_witness`.) -/
+holds exactly that fit.  (`KeyInj` holds for `HDDResults` and `RAMResults` alike: `mkWork_keys_injective`.) -/
 theorem record_eq_honest_fold (cfg : Cfg N K) (L : Learner W) (items : List (Item N)) (hk : KeyInj cfg items)
     (history : List RunSpec) :
     ∀ r ∈ runHistory cfg L items (St.empty : St N K W) history, ∀ it ∈ items,
@@ -121,7 +121,7 @@ theorem load_eq_saved (cfg : Cfg N K) (st : St N K W) (fold : Nat) (p : Part) :
 disabled: after ANY sequence of earlier runs with the same options (each failing at any call, or not at all,
 each over a new or the reused results object) a run without failure ends without error, and its record map
 and its saved-strategy map equal those of one uninterrupted run over an empty store (key by key; time stamps
-aside).  Registry: see `resume_registry_complete_partial`. -/
+aside).  Registry and master file: `resume_registry_complete`, `registry_names_only_items`. -/
 theorem resume_completes_to_uninterrupted (cfg : Cfg N K) (L : Learner W) (o : Opts) (items : List (Item N))
     (hd : cfg.disk = true) (hk : KeyInj cfg items) (_hP : o.owP = false) (hF : o.owF = false)
     (earlier : List RunSpec) (hsame : ∀ rs ∈ earlier, rs.o = o) (fresh : Bool) :
@@ -296,10 +296,11 @@ theorem rerun_performs_no_fits (cfg : Cfg N K) (L : Learner W) (o1 : Opts) (item
       have := hc it hit
       unfold CompleteItem at this ⊢
       simpa [Run.start, e1, e2] using this
-    have hn := runItems_noop cfg L o2 fail2 hd rfl rfl items (Run.start st0) hc0
+    obtain ⟨n1, n2, _, n4, n5, n6, n7, _⟩ := runItems_noop cfg L o2 fail2 hd rfl rfl items (Run.start st0) hc0
     have hr : r = finish cfg (runItems cfg L o2 fail2 items (Run.start st0)) := fitPredict_valid cfg L o2 fail2 ho2 items _
-    rw [hr, hn]
-    simp [Run.start, e1, e2]
+    rw [hr]
+    simp only [finish_err, finish_log, finish_wrRecs, finish_wrStrats, finish_recs, finish_strats]
+    exact ⟨by rw [n7]; rfl, by rw [n4]; rfl, by rw [n5]; rfl, by rw [n6]; rfl, by rw [n1]; exact e1, by rw [n2]; exact e2⟩
   show (runOne cfg L items r1.st ⟨o2, fail2, fresh⟩).err = none ∧ _
   unfold runOne
   cases fresh
@@ -345,148 +346,93 @@ theorem uninterrupted_log_exactly_once (cfg : Cfg N K) (L : Learner W) (o : Opts
   · rw [finish_wrRecs, e3]; simp only [Run.start, List.nil_append]
     exact flatMap_congr' items _ _ (fun it _ => (empty_eq cfg o it).2)
 
-/-! ### the registry of strategy / dataset names
+/-! ### the registry of strategy / dataset names (part of "the final store equals that of an uninterrupted run") -/
 
-Full-strength statement (what the property text asks: "the final store equals that of an uninterrupted run",
-the registry and the master file being part of the store):
-
-    after ANY earlier runs and a final run that ends without error, every strategy and dataset of the work
-    list is named in `results.strategy_names / dataset_names` and in the master file.
-
-This is FALSE for the code as it is (`resume_registry_incomplete_witness`): names are registered only when
-something is saved, the master file is written only by the final `save()`, and a new results object starts
-with an empty registry, so work completed before a crash is never registered again.  Proved instead: the
-statement under the hypothesis that the live registry covers what is stored (`RegCov`), which holds whenever
-the results object is the one that has been used since the store was empty
-(`registry_covers_when_object_reused`). -/
-
-/-- the live registry names every item that has something stored -/
-abbrev RegistryCovers (cfg : Cfg N K) (items : List (Item N)) (st : St N K W) : Prop := RegCov cfg items st
-
-theorem resume_registry_complete_partial (cfg : Cfg N K) (L : Learner W) (o : Opts) (items : List (Item N))
-    (hd : cfg.disk = true) (hk : KeyInj cfg items) (ho : Valid o) (fail : Option Nat) (st : St N K W)
-    (hcov : RegistryCovers cfg items st) :
-    let r := fitPredict cfg L o fail items st
+/-- **The registry is complete after every run that ends without error.**  On a store with existence checks,
+over ANY earlier store and with a new or the reused results object alike, any failure point: if the run ends
+without error, every strategy and dataset of the work list is named in the live registry
+(`results.strategy_names / dataset_names`) and in the master file -- also those whose work was complete
+before and is skipped now.  (Before fix 027a939 this failed after a crash + new results object:
+`corpus/C19/witnesses.json[0]`.) -/
+theorem resume_registry_complete (cfg : Cfg N K) (L : Learner W) (o : Opts) (items : List (Item N))
+    (hd : cfg.disk = true) (ho : Valid o) (fail : Option Nat) (fresh : Bool) (st : St N K W) :
+    let r := runOne cfg L items st ⟨o, fail, fresh⟩
     r.err = none → ∀ it ∈ items,
       it.s ∈ r.st.regS ∧ it.d ∈ r.st.regD ∧
       ∃ ms md, r.st.master = some (ms, md) ∧ it.s ∈ ms ∧ it.d ∈ md := by
-  intro r herr it hit
-  have hr : r = finish cfg (runItems cfg L o fail items (Run.start st)) := fitPredict_valid cfg L o fail ho items _
-  have herr' : (runItems cfg L o fail items (Run.start st)).err = none := by rw [hr] at herr; simpa using herr
-  have hc := runItems_complete cfg L o fail items _ herr' it hit
-  have hcov' := runItems_regCov cfg L o fail items items (fun _ h => h) hk (Run.start st) hcov it hit
-    (Or.inl ⟨.test, hc.1⟩)
-  rw [hr]
-  unfold finish
-  simp only [herr', Option.isSome_none, Bool.false_eq_true, if_false]
-  generalize (runItems cfg L o fail items (Run.start st)).st = s1 at hcov'
-  unfold save
-  simp only [hd, if_true]
-  cases hm : s1.master with
-  | none => exact ⟨hcov'.1, hcov'.2, s1.regS, s1.regD, rfl, hcov'.1, hcov'.2⟩
-  | some m =>
-    obtain ⟨ms, md⟩ := m
-    have h1 : it.s ∈ dedup (s1.regS ++ ms) := (mem_dedup _ _).2 (List.mem_append_left _ hcov'.1)
-    have h2 : it.d ∈ dedup (s1.regD ++ md) := (mem_dedup _ _).2 (List.mem_append_left _ hcov'.2)
-    exact ⟨h1, h2, _, _, rfl, h1, h2⟩
+  intro r
+  have main : ∀ st0 : St N K W, (fitPredict cfg L o fail items st0).err = none → ∀ it ∈ items,
+      it.s ∈ (fitPredict cfg L o fail items st0).st.regS ∧ it.d ∈ (fitPredict cfg L o fail items st0).st.regD ∧
+      ∃ ms md, (fitPredict cfg L o fail items st0).st.master = some (ms, md) ∧ it.s ∈ ms ∧ it.d ∈ md := by
+    intro st0
+    rw [fitPredict_valid cfg L o fail ho items st0]
+    intro herr it hit
+    have herr' : (runItems cfg L o fail items (Run.start st0)).err = none := by simpa using herr
+    have hreg := runItems_registers cfg L o fail ho items _ herr' it hit
+    unfold finish
+    simp only [herr', Option.isSome_none, Bool.false_eq_true, if_false]
+    generalize (runItems cfg L o fail items (Run.start st0)).st = s1 at hreg
+    unfold save
+    simp only [hd, if_true]
+    cases hm : s1.master with
+    | none => exact ⟨hreg.1, hreg.2, s1.regS, s1.regD, rfl, hreg.1, hreg.2⟩
+    | some m =>
+      obtain ⟨ms, md⟩ := m
+      have h1 : it.s ∈ dedup (s1.regS ++ ms) := (mem_dedup _ _).2 (List.mem_append_left _ hreg.1)
+      have h2 : it.d ∈ dedup (s1.regD ++ md) := (mem_dedup _ _).2 (List.mem_append_left _ hreg.2)
+      exact ⟨h1, h2, _, _, rfl, h1, h2⟩
+  show (runOne cfg L items st ⟨o, fail, fresh⟩).err = none → _
+  unfold runOne
+  cases fresh
+  · exact main st
+  · exact main (freshObj cfg st)
 
-/-- the hypothesis of `resume_registry_complete_partial` holds along every history that keeps using the same
-results object from the empty store on (any options, any failure points) -/
-theorem registry_covers_when_object_reused (cfg : Cfg N K) (L : Learner W) (items : List (Item N))
-    (hk : KeyInj cfg items) (history : List RunSpec) (hsame : ∀ rs ∈ history, rs.fresh = false) :
-    RegistryCovers cfg items (stateAfter cfg L items (St.empty : St N K W) history) := by
-  have step : ∀ (o : Opts) (fail : Option Nat) (st : St N K W), RegCov cfg items st →
-      RegCov cfg items (fitPredict cfg L o fail items st).st := by
-    intro o fail st h
-    by_cases ho : Valid o
-    · rw [fitPredict_valid cfg L o fail ho]
-      have h1 := runItems_regCov cfg L o fail items items (fun _ h => h) hk (Run.start st) h
-      generalize runItems cfg L o fail items (Run.start st) = r1 at h1
-      unfold finish
-      split
-      · exact h1
-      · intro it hit hex
-        have := h1 it hit (by simpa using hex)
-        show it.s ∈ (save cfg r1.st).regS ∧ it.d ∈ (save cfg r1.st).regD
-        unfold save
-        split
-        · split
-          · exact this
-          · exact ⟨(mem_dedup _ _).2 (List.mem_append_left _ this.1), (mem_dedup _ _).2 (List.mem_append_left _ this.2)⟩
-        · exact this
-    · rw [fitPredict_invalid cfg L o fail ho]; exact h
-  have : ∀ (st : St N K W), RegCov cfg items st → RegCov cfg items (stateAfter cfg L items st history) := by
-    induction history with
-    | nil => intro st h; exact h
-    | cons a t ih =>
-      intro st h
-      unfold stateAfter
-      rw [List.foldl_cons]
-      apply ih (fun rs hrs => hsame rs (List.mem_cons_of_mem _ hrs))
-      have hf := hsame a List.mem_cons_self
-      unfold runOne
-      rw [hf]
-      exact step a.o a.fail st h
-  exact this _ (fun it _ hex => by
-    rcases hex with ⟨p, hp⟩ | hp
-    · simp [St.empty, has] at hp
-    · simp [St.empty, has] at hp)
+/-- ... **and names nothing else**: along ANY history of runs over the same work list from an empty store, the
+live registry and the master file only ever name strategies and datasets of the work list.  Together with
+`resume_registry_complete`: after a resumed run that ends without error the registry and the master file name
+exactly the work list's strategies and datasets, as after an uninterrupted run. -/
+theorem registry_names_only_items (cfg : Cfg N K) (L : Learner W) (items : List (Item N)) (history : List RunSpec) :
+    let st := stateAfter cfg L items (St.empty : St N K W) history
+    (∀ x ∈ st.regS, ∃ it ∈ items, x = it.s) ∧ (∀ x ∈ st.regD, ∃ it ∈ items, x = it.d) ∧
+    (∀ ms md, st.master = some (ms, md) →
+      (∀ x ∈ ms, ∃ it ∈ items, x = it.s) ∧ (∀ x ∈ md, ∃ it ∈ items, x = it.d)) := by
+  intro st
+  exact regWithin_stateAfter cfg L items history St.empty
+    ⟨fun x h => by simp [St.empty] at h, fun x h => by simp [St.empty] at h,
+     fun ms md h => by simp [St.empty] at h⟩
 
-/-! concrete witnesses -/
+/-! concrete configuration used by the examples -/
 
-/-- a trivial estimator and a two-strategy, one-fold work list over the HDD naming scheme -/
+/-- a trivial estimator and a two-strategy, one-fold work list -/
 def wL : Learner Unit := ⟨fun _ _ _ => (), fun _ X => X.map (fun _ => 0)⟩
 def wData : Data := ⟨[[0, 0], [1, 1], [2, 0]], 1, none⟩
 def wItems : List (Item Nat) := [⟨0, 0, 0, wData, 0, [0, 1], [2]⟩, ⟨1, 0, 0, wData, 0, [0, 1], [2]⟩]
 def wOpts : Opts := ⟨false, false, false, false⟩
 
-/-- **The registry defect, concretely** (negation of the full-strength registry statement).  Strategies 0 and 1
-on one dataset and one fold, `HDDResults`-style store.  Run 1: the 3rd estimator call (strategy 1's fit)
-raises, after strategy 0 is complete.  Run 2: a new results object over the same path, no failure, ends
-without error; both records are on disk -- but the registry and the master file name strategy 1 only, and
-`load_predictions` yields one record instead of two. -/
-theorem resume_registry_incomplete_witness :
-    let st1 := (runOne (hddCfg Nat) wL wItems (St.empty : St Nat _ Unit) ⟨wOpts, some 3, true⟩).st
-    let r2 := runOne (hddCfg Nat) wL wItems st1 ⟨wOpts, none, true⟩
-    r2.err = none ∧ (∀ it ∈ wItems, has (rk (hddCfg Nat) it .test) r2.st.recs = true) ∧
-    r2.st.regS = [1] ∧ r2.st.master = some ([1], [0]) ∧
-    (loadPredictions (hddCfg Nat) r2.st 0 .test).toOption.map List.length = some 1 := by
-  decide
+/-- About the ORIGINAL code only (before fix 23c2285; not the model): the joined-string key
+`f"{strategy}_{dataset}_{part}_{fold}"` that `RAMResults` used is not injective -- strategy "a" on dataset
+"b_c" and strategy "a_b" on dataset "c" share every key.  The tuple key of the fixed code is injective
+(`mkWork_keys_injective`). -/
+def originalRamKey (s d : String) (p : Part) (f : Nat) : String :=
+  s ++ "_" ++ d ++ "_" ++ p.str ++ "_" ++ toString f
 
-/-- **RAM keys are not injective** (so `KeyInj ramCfg` fails for such names): strategy "a" on dataset "b_c" and
-strategy "a_b" on dataset "c" share every key. -/
-theorem ram_key_collision_witness :
-    ("a", "b_c") ≠ ("a_b", "c") ∧ ∀ p f, ramCfg.rkey "a" "b_c" p f = ramCfg.rkey "a_b" "c" p f := by
+theorem original_ram_key_collision :
+    ("a", "b_c") ≠ ("a_b", "c") ∧ ∀ p f, originalRamKey "a" "b_c" p f = originalRamKey "a_b" "c" p f := by
   refine ⟨by decide, ?_⟩
   intro p f
-  show ramKey "a" "b_c" p f = ramKey "a_b" "c" p f
-  unfold ramKey
+  unfold originalRamKey
   have : "a" ++ "_" ++ "b_c" = "a_b" ++ "_" ++ "c" := by decide
   rw [this]
 
-/-- the RAM work list of the collision: strategies "a", "a_b" on datasets "b_c", "c", one fold -/
-def rItems : List (Item String) :=
-  mkWork [⟨"b_c", wData, [([0, 1], [2])]⟩, ⟨"c", wData, [([0, 1], [2])]⟩] [⟨"a", 0⟩, ⟨"a_b", 0⟩]
-
-/-- **... and that breaks `record_eq_honest_fold` / exactly-one-record for `RAMResults`** (negation at a concrete
-witness; this is why those theorems carry `KeyInj`): an uninterrupted in-memory run over 4 items ends without
-error with 3 records, and the record found under the key of (strategy "a", dataset "b_c") is the one saved for
-(strategy "a_b", dataset "c"). -/
-theorem ram_collision_breaks_honesty_witness :
-    let r := fitPredict ramCfg wL ⟨false, false, false, false⟩ none rItems (St.empty : St String String Unit)
-    r.err = none ∧ rItems.length = 4 ∧ (keys r.st.recs).length = 3 ∧
-    (get? (rk ramCfg (⟨"a", 0, "b_c", wData, 0, [0, 1], [2]⟩ : Item String) .test) r.st.recs).map
-      (fun x => (x.s, x.d)) = some ("a_b", "c") := by
-  decide
-
-/-- **The real work list has injective keys on disk.**  For the work list `_iter` builds (datasets × strategies ×
-folds) and the `HDDResults` naming scheme, distinct strategy names (checked by `Orchestrator.__init__`) and
-distinct dataset names (NOT checked by the code: an assumption) give distinct keys for distinct (strategy,
-dataset, fold, part), and no item occurs twice.  So every theorem above applies to `mkWork` over `hddCfg`. -/
+/-- **The real work list has injective keys, on disk and in memory.**  For the work list `_iter` builds (datasets ×
+strategies × folds) and the `HDDResults` as well as the `RAMResults` naming scheme, distinct strategy names
+(checked by `Orchestrator.__init__`) and distinct dataset names (NOT checked by the code: an assumption) give
+distinct keys for distinct (strategy, dataset, fold, part), and no item occurs twice.  So every theorem above
+applies to `mkWork` over `hddCfg` and over `ramCfg`. -/
 theorem mkWork_keys_injective (dss : List (DS N)) (strats : List (Strat N))
     (hd : (dss.map (·.name)).Nodup) (hs : (strats.map (·.name)).Nodup) :
-    KeyInj (hddCfg N) (mkWork dss strats) :=
-  mkWork_keyInj dss strats hd hs
+    KeyInj (hddCfg N) (mkWork dss strats) ∧ KeyInj (ramCfg N) (mkWork dss strats) :=
+  ⟨mkWork_keyInj dss strats hd hs, mkWork_keyInj_ram dss strats hd hs⟩
 
 /-- `Orchestrator.__init__` accepts only duplicate-free strategy names (the hypothesis `hs` above) -/
 theorem validate_ok_names_nodup (nt nd : Nat) (names : List String) (h : validate nt nd names = .ok ()) :
@@ -503,7 +449,7 @@ theorem validate_ok_names_nodup (nt nd : Nat) (names : List String) (h : validat
 
 example : wItems = mkWork [⟨0, wData, [([0, 1], [2])]⟩] [⟨0, 0⟩, ⟨1, 0⟩] := by decide
 /-- injective keys (hypothesis `hk`) -/
-example : KeyInj (hddCfg Nat) wItems :=
+example : KeyInj (hddCfg Nat) wItems ∧ KeyInj (ramCfg Nat) wItems :=
   mkWork_keys_injective [⟨0, wData, [([0, 1], [2])]⟩] [⟨0, 0⟩, ⟨1, 0⟩] (by decide) (by decide)
 /-- accepted options (`ho`), overwriting disabled (`hP`, `hF`) -/
 example : Valid wOpts ∧ wOpts.owP = false ∧ wOpts.owF = false := by unfold Valid; decide
@@ -521,13 +467,25 @@ example : (fitPredict (hddCfg Nat) wL wOpts none wItems (St.empty : St Nat _ Uni
 /-- `load_eq_saved`: after the uninterrupted run every registered pair has its record and loading succeeds -/
 example : ((loadPredictions (hddCfg Nat) (fitPredict (hddCfg Nat) wL wOpts none wItems (St.empty : St Nat _ Unit)).st 0 .test).toOption.map
     List.length) = some 2 := by decide
-/-- `RegistryCovers` holds e.g. after a crash when the same results object is kept -/
-example : RegistryCovers (hddCfg Nat) wItems
-    (stateAfter (hddCfg Nat) wL wItems (St.empty : St Nat _ Unit) [⟨wOpts, some 3, false⟩]) :=
-  registry_covers_when_object_reused (hddCfg Nat) wL wItems
-    (mkWork_keys_injective [⟨0, wData, [([0, 1], [2])]⟩] [⟨0, 0⟩, ⟨1, 0⟩] (by decide) (by decide)) _ (by decide)
+/-- `resume_registry_complete` at the former defect's witness: the 3rd call (strategy 1's fit) raises after
+strategy 0 is complete; a run over a NEW results object ends without error and registers both strategies, in
+the live registry and in the master file, and `load_predictions` yields both records -/
+example :
+    let st1 := (runOne (hddCfg Nat) wL wItems (St.empty : St Nat _ Unit) ⟨wOpts, some 3, true⟩).st
+    let r2 := runOne (hddCfg Nat) wL wItems st1 ⟨wOpts, none, true⟩
+    st1.master = none ∧ r2.err = none ∧ r2.log.length = 2 ∧ r2.st.regS = [0, 1] ∧
+    r2.st.master = some ([0, 1], [0]) ∧
+    (loadPredictions (hddCfg Nat) r2.st 0 .test).toOption.map List.length = some 2 := by
+  decide
+/-- in-memory store with names that collided under the original joined-string key: 4 items, 4 records -/
+example :
+    let items : List (Item String) :=
+      mkWork [⟨"b_c", wData, [([0, 1], [2])]⟩, ⟨"c", wData, [([0, 1], [2])]⟩] [⟨"a", 0⟩, ⟨"a_b", 0⟩]
+    let r := fitPredict (ramCfg String) wL ⟨false, false, false, false⟩ none items (St.empty : St String _ Unit)
+    r.err = none ∧ items.length = 4 ∧ (keys r.st.recs).length = 4 := by
+  decide
 /-- RAM store: `save_fitted_strategies=True` (the default) is refused with NotImplementedError after the first fit -/
-example : (fitPredict ramCfg wL ⟨false, false, true, false⟩ none
+example : (fitPredict (ramCfg String) wL ⟨false, false, true, false⟩ none
     [(⟨"a", 0, "d", wData, 0, [0, 1], [2]⟩ : Item String)] (St.empty : St String _ Unit)).err = some .notImpl := by decide
 /-- the honest record of the first witness item: index [2], true value 0, prediction 0 -/
 example : honest wL (⟨0, 0, 0, wData, 0, [0, 1], [2]⟩ : Item Nat) .test = ⟨[2], [0], [0]⟩ := by decide
